@@ -89,7 +89,7 @@ async def script(loop, ctx):
             r = rnd.random()
             if r < 0.25:
                 # an IMAP session changes INBOX meanwhile
-                kind = rnd.choice(["append", "expunge", "deliver", "advance", "store", "reuse", "reuse"])
+                kind = rnd.choice(["append", "expunge", "deliver", "advance", "store", "reuse", "reuse", "rename_inbox"])
                 stats["imap_changes"] += 1
                 log.append("IMAP " + kind)
                 if kind == "append":
@@ -114,6 +114,20 @@ async def script(loop, ctx):
                         rig.deliver_raw("inbox", raw)
                         await rig.advance(6)
                         counts["number_reuse"] += 1
+                elif kind == "rename_inbox":
+                    # every message of the snapshot leaves INBOX; what arrives afterwards is not in the snapshot
+                    cur = await observe_inbox(o)
+                    r_ = await a.cmd(f"RENAME inbox saved{step}")
+                    if r_.status == "OK":
+                        gone_uids.update(c[0] for c in cur)
+                        counts["inbox_renamed_under_pop3"] += 1
+                        for _ in range(rnd.choice([1, 2, 3])):
+                            cid, raw = cids.make(rnd)
+                            if rnd.random() < 0.5:
+                                rig.deliver_raw("inbox", raw)
+                            else:
+                                await a.append("inbox", raw)
+                        await rig.advance(6)
                 elif kind == "store":
                     await a.cmd("STORE 1:* +FLAGS.SILENT (\\Flagged)")
                 else:
